@@ -311,7 +311,7 @@ Example c17_pipe_reregistration :
 Proof. vm_compute. repeat split; reflexivity. Qed.
 
 (* ==================================================================================== *)
-(* Freshness (finding C17-F4, fixed: PENDING): is every delivered sample fresh?
+(* Freshness (finding C17-F4, fixed: 0376b67): is every delivered sample fresh?
    [prun_f] threads, from the inputs alone, the request ids whose result has been delivered to the
    windows ([cons]) and the acknowledged ids; [acks_ok]: Band's request ids are unique and non-zero.
    Before the repair the first check after a check-flag reset (registration, or AddAssetRecords /
